@@ -419,3 +419,8 @@ func (m *Monitors) key() string {
 	sb.WriteString(strings.Join(sg, ","))
 	return sb.String()
 }
+
+// ExplainExec is exported for the chain-level part of C06.
+func ExplainExec(chain []*clientpb.Command, count uint32, digest []byte) ([]*clientpb.Command, bool) {
+	return explainExec(chain, count, digest)
+}
